@@ -227,6 +227,17 @@ def run(ctx: Any, prog: Program) -> None:
     ctx.rule('C04.A10', 'Euler components of two rotations are never simply added, except when the rotation applied second is a pure yaw', floor=1)
     ctx.rule('C04.A7', 'in-place kernels are alias safe, or are only called with a fresh receiver (m @= m computes m @ m)', floor=4)
 
+    # A9 clause: a memo keyed by a vector / angle / matrix object is keyed by its TOLERANT equality (hash and == round to 6 decimals), so two
+    # different rotations closer than 1e-6 share one cached result: the value handed out no longer follows from the operand (near the poles
+    # that difference is what the quantifier of this property asks about)
+    for q_, fl_ in mt.all_funcs().items():
+        for f_ in fl_:
+            decs_ = [d.func if isinstance(d, ast.Call) else d for d in f_.decorator_list]
+            if not any((d.attr if isinstance(d, ast.Attribute) else getattr(d, 'id', '')) in ('lru_cache', 'cache', 'memoize', 'memoise') for d in decs_):
+                continue
+            fuzzy = [a.arg for a in f_.args.args + f_.args.kwonlyargs if a.annotation is not None and re.search(r'\b(Frozen)?(Angle|Vec|Matrix)(Base)?\b|AnyAngle|AnyVec|AnyMatrix', U(a.annotation))]
+            ctx.check('C04.A9', not fuzzy, mt, f_, f'{q_} is memoised and takes {fuzzy} - objects whose == and hash ignore differences below 1e-6: the cache hands the result computed for one rotation to a different, '
+                      'nearly equal one (entries off by up to ~2e-8, which scales with the vector rotated)', func=q_, text=f'{q_}: memo key is exact')
     a12_inplace_identity(ctx, mt)
     a8_pivoting(ctx, mt)
     a11_elimination(ctx, mt)
@@ -1062,6 +1073,7 @@ def analyse_to_angle(ctx: Any, rule: str, relpath: str, qual: str, body: List[as
 
 
 MUTANTS = [
+    {'id': 'frozen_angle_matrix_memoised', 'file': 'math.py', 'find': "def _mk_vec(x: float, y: float, z: float) -> Vec:", 'replace': "@__import__('functools').lru_cache(maxsize=1024)\ndef _frozen_angle_matrix(ang: FrozenAngle) -> FrozenMatrix:\n    return Py_FrozenMatrix.from_angle(ang.pitch, ang.yaw, ang.roll)\n\n\ndef _mk_vec(x: float, y: float, z: float) -> Vec:", 'expect': 'C04.A9'},
     {'id': 'angle_imatmul_returns_new_angle', 'file': 'math.py', 'find': "            mat = Py_Matrix.from_angle(self)\n            mat @= other\n            return mat._to_angle(self)  # Inplace", 'replace': "            return other._rotate_angle(self, Py_Angle)", 'expect': 'C04.A12'},
     {'id': 'gimbal_yaw_from_forward_axis_near_pole', 'file': 'math.py', 'find': "            ang._yaw = math.degrees(math.atan2(-left_x, left_y)) % 360.0 % 360.0\n", 'replace': "            if horiz_dist > 1e-9:\n                ang._yaw = math.degrees(math.atan2(for_y, for_x)) % 360.0 % 360.0\n            else:\n                ang._yaw = math.degrees(math.atan2(-left_x, left_y)) % 360.0 % 360.0\n", 'expect': 'C04.A5'},
     {'id': 'vec_rot_skips_near_origin', 'file': 'math.py', 'find': '    def _vec_rot(self, vec: VecBase) -> None:\n        """Rotate a vector by our value, inplace (even if frozen)."""\n', 'replace': '    def _vec_rot(self, vec: VecBase) -> None:\n        """Rotate a vector by our value, inplace (even if frozen)."""\n        if vec == (0.0, 0.0, 0.0):\n            return\n', 'expect': 'C04.A3'},
